@@ -336,8 +336,19 @@ class ParametricModelBaseMixin(object):
     @parameters.setter
     def parameters(self, parameters):
         """Setter for parameter values"""
+        try:
+            _unchanged = np.array_equal(self._model_parameters, parameters)
+        except AttributeError:  # first assignment
+            _unchanged = False
         self._model_parameters = parameters
 
         # flag: recalculate the model values next time they are requested
-        self._pm_calculation_stale = True
+        if not _unchanged:
+            self._pm_calculation_stale = True
         self._clear_total_error_cache()  # declared in the container class
+
+    def _calculate_total_error(self):
+        # uncertainties relative to the model refer to the model values at the current parameters
+        if self._pm_calculation_stale:
+            self._recalculate()
+        super(ParametricModelBaseMixin, self)._calculate_total_error()
